@@ -807,3 +807,31 @@ pub fn show_input(v: &[u8]) -> String {
 pub fn needs_caps(g: &G) -> (bool, bool, bool) {
     (contains(g, &|x| matches!(x, G::Slice(_))), contains(g, &|x| matches!(x, G::AnyRef | G::SelectRef(_))), contains(g, &|x| matches!(x, G::SpanFrom)))
 }
+
+/// The sync builder (`&dyn Parser` at every node) has no Rec / nested_delimiters: replace them by
+/// their body / plain parser, repeatedly (the replacement may itself be one).
+pub fn strip_for_sync(g: &mut G) {
+    loop {
+        match g {
+            G::Recover(a, Strat::Nested(..)) => {
+                let inner = std::mem::replace(&mut **a, G::Empty);
+                *g = inner;
+            }
+            G::Rec(b) => {
+                let inner = std::mem::replace(&mut **b, G::Empty);
+                *g = inner;
+            }
+            G::RecRef => {
+                *g = G::Just(0);
+            }
+            G::Lazy(b) => {
+                let inner = std::mem::replace(&mut **b, G::Empty);
+                *g = inner;
+            }
+            _ => break,
+        }
+    }
+    for c in children_mut(g) {
+        strip_for_sync(c);
+    }
+}
